@@ -680,8 +680,12 @@ theorem paris_total (round32 : ℚ → ℚ) (csr : List (List (Nat × ℚ))) (ou
     included: a node without an edge has an empty row and becomes a component of its own) and under
     `weights='degree'` for directed inputs too (for an edge `x → y`, `out_x · in_y > 0`; sources and sinks have a
     null in- or out-weight and are fine), as long as no product of node weights underflows to 0 in double precision.
-    What they exclude is the denominator 0 on an adjacent pair — weights below about 1e-154 relative to the total, or
-    stored zero entries: there the repaired code still returns (`invSim`), by runs only.  Not covered: the rounding
+    The symmetry of the keys (`NbInv`) is the symmetry of the *stored* entries: `fit` establishes it for every input,
+    a non-symmetric matrix is replaced by `A + Aᵀ`, and the explicit zeros of a matrix that is symmetric in value
+    are dropped since /repo 612f1679 (F27: a zero stored on one side only passed `is_symmetric`, the keys were not
+    symmetric and the chain raised KeyError) — no stored zero reaches `AggregateGraph` any more.
+    What they exclude is the denominator 0 on an adjacent pair — weights below about 1e-154 relative to the total:
+    there the repaired code still returns (`invSim`), by runs only.  Not covered: the rounding
     of the double additions inside `merge` (exact in the model), NaN / inf.
     Proof: besides the invariants of `paris_terminates`, the chain stays a chain of nearest neighbours of the
     *current* graph after a merge (`isNN_merge`: the similarity to the merged node is a rounded mediant, at most the
